@@ -1,11 +1,11 @@
 // compile: clang++-14 -std=c++17 -O1 -DNDEBUG -I /repo/tooling/internal/cpp/include <this file> -o replay && ./replay
 // (drop -DNDEBUG to see the debug-build assertion)
 // property C16, violation key cc:ReadVarIntegerSlow:stale-after-empty-refill
-// ReadVarIntegerSlow<ReadVarU64>: load of 1 byte(s) at buffer offset 0 lies outside [data, buffer_end_ptr_): stale bytes are decoded after FillBuffer() delivered fewer bytes than the decoder consumes; call chain ReadVarIntegerSlow < ReadVarInt64 < h_ReadVarU64
+// ReadVarIntegerSlow (entry point ReadVarU64): load of 1 byte(s) at buffer offset 0 lies outside [data, buffer_end_ptr_): stale bytes are decoded after FillBuffer() delivered fewer bytes than the decoder consumes, the call returns normally instead of throwing EndOfStreamException and leaves buffer_ptr
 // spec: throw yardl::binary::EndOfStreamException
-// native observation (release build): ret 0 / drain 82818481c0908181c0818181818184818181828181818181818181
-// debug build, same call twice: exit -6 (assertion)
-#define BAKED_ARGS {"R", "32", "00000000000000000000000000000000000000000000000000000000000000000082818481c0908181c08181818181848181818281818181818181818181c080", "pre:63", "ReadVarU64", "drain"}
+// native observation (release build): ret 4613942354028552192 / drain 8181800000000000000000000000002100000000000000014e7355
+// debug build (no -DNDEBUG) with the operation repeated (args pre:23 ReadVarU64 ReadVarU64): exit -6 (assert(buffer_ptr_ <= buffer_end_ptr_) fails in the second call)
+#define BAKED_ARGS {"R", "12", "000000000000000000000000c0819081848184c040818180", "pre:23", "ReadVarU64", "drain"}
 // Native replay driver for coded_stream.h (real, unmodified header; public API only).
 //
 //   replay_kernels R <N> <hex stream bytes> <cmd>...     reader script
